@@ -9,6 +9,7 @@ import (
 	"errors"
 	"fmt"
 	"os"
+	"path/filepath"
 	"sort"
 	"strconv"
 	"strings"
@@ -17,13 +18,16 @@ import (
 	"github.com/btcsuite/btcd/btcutil"
 	"github.com/btcsuite/btcd/chaincfg/chainhash"
 	"github.com/btcsuite/btcd/wire"
+	"github.com/lightninglabs/pool"
 	"github.com/lightninglabs/pool/account"
 	"github.com/lightninglabs/pool/auctioneer"
 	"github.com/lightninglabs/pool/auctioneerrpc"
 	"github.com/lightninglabs/pool/clientdb"
 	"github.com/lightninglabs/pool/order"
 	"github.com/lightninglabs/pool/poolscript"
+	"github.com/lightninglabs/pool/sidecar"
 	"github.com/lightninglabs/pool/terms"
+	"github.com/lightningnetwork/lnd/chainntnfs"
 	"github.com/lightningnetwork/lnd/keychain"
 	"github.com/lightningnetwork/lnd/lnwallet/chainfee"
 	"google.golang.org/grpc"
@@ -45,6 +49,7 @@ type c06World struct {
 	aucKey   *btcec.PublicKey
 	nonceIdx map[order.Nonce]int
 	batchIdx map[order.BatchID]int
+	ticket   *sidecar.Ticket
 }
 
 func c06Ser(k *btcec.PublicKey) (r [33]byte) {
@@ -87,6 +92,15 @@ func newC06World() *c06World {
 		}
 		w.txIdx[w.txs[t].TxHash()] = t
 	}
+	w.ticket = &sidecar.Ticket{
+		ID:      [8]byte{7, 7, 7, 1},
+		Version: sidecar.VersionDefault,
+		State:   sidecar.StateOffered,
+		Offer: sidecar.Offer{
+			Capacity: 1000000, PushAmt: 2000, LeaseDurationBlocks: 2016,
+			SignPubKey: w.acctKey[9],
+		},
+	}
 	for n := 0; n < 32; n++ {
 		w.nonceIdx[w.nonce(n)] = n
 		w.batchIdx[w.batchID(n)] = n
@@ -115,13 +129,73 @@ func (a c06Acct) str(k int) string {
 }
 
 type c06Ord struct {
-	State              int64
-	Unfilled, Units    uint64
-	Min                uint64
+	State           int64
+	Unfilled, Units uint64
+	Min             uint64
+	Bid             int64 // 1 = bid, 0 = ask
+	Tier            int64 // Bid.MinNodeTier
+	Extras          int64 // tag of the TLV-encoded optional terms (c06Extras)
 }
 
 func (o c06Ord) str(n int) string {
-	return fmt.Sprintf("%d:%d,%d,%d,%d", n, o.State, o.Unfilled, o.Units, o.Min)
+	return fmt.Sprintf("%d:%d,%d,%d,%d,%d,%d,%d", n, o.State, o.Unfilled, o.Units, o.Min, o.Bid, o.Tier, o.Extras)
+}
+
+// c06ParseOrd parses `state unfilled units min isBid tier extras`.
+func c06ParseOrd(f []string) c06Ord {
+	var v [7]uint64
+	for i := 0; i < 7 && i < len(f); i++ {
+		v[i], _ = strconv.ParseUint(f[i], 10, 64)
+	}
+	return c06Ord{int64(v[0]), v[1], v[2], v[3], int64(v[4]), int64(v[5]), int64(v[6])}
+}
+
+// c06Extras sets the optional, TLV-encoded terms of an order from a 3-bit tag:
+// bit 0: script enforced channel type + public flag; bit 1: allowed node
+// ids + outbound-liquidity auction type; bit 2: blocked node ids and, for
+// bids, self channel balance, sidecar ticket, unannounced + zero-conf flags,
+// for asks the announcement / confirmation constraints.
+func (w *c06World) c06Extras(o order.Order, tag int64) {
+	k := o.Details()
+	if tag&1 != 0 {
+		k.ChannelType = order.ChannelTypeScriptEnforced
+		k.IsPublic = true
+	}
+	if tag&2 != 0 {
+		k.AllowedNodeIDs = [][33]byte{c06Ser(w.acctKey[6]), c06Ser(w.acctKey[7])}
+		k.AuctionType = order.BTCOutboundLiquidity
+	}
+	if tag&4 != 0 {
+		k.NotAllowedNodeIDs = [][33]byte{c06Ser(w.acctKey[8])}
+		switch t := o.(type) {
+		case *order.Bid:
+			t.SelfChanBalance = 12345
+			t.SidecarTicket = w.ticket
+			t.UnannouncedChannel = true
+			t.ZeroConfChannel = true
+		case *order.Ask:
+			t.AnnouncementConstraints = order.OnlyUnannounced
+			t.ConfirmationConstraints = order.OnlyZeroConf
+		}
+	}
+}
+
+// c06ExtrasSig is the canonical text of the optional terms of a real order.
+func c06ExtrasSig(o order.Order) string {
+	k := o.Details()
+	s := fmt.Sprintf("ct=%d pub=%v allow=%x deny=%x at=%d", k.ChannelType, k.IsPublic, k.AllowedNodeIDs,
+		k.NotAllowedNodeIDs, k.AuctionType)
+	switch t := o.(type) {
+	case *order.Bid:
+		tk := "nil"
+		if t.SidecarTicket != nil {
+			tk = fmt.Sprintf("%x/%d/%d", t.SidecarTicket.ID, t.SidecarTicket.Offer.Capacity, t.SidecarTicket.State)
+		}
+		s += fmt.Sprintf(" scb=%d tk=%s un=%v zc=%v", t.SelfChanBalance, tk, t.UnannouncedChannel, t.ZeroConfChannel)
+	case *order.Ask:
+		s += fmt.Sprintf(" ac=%d cc=%d", t.AnnouncementConstraints, t.ConfirmationConstraints)
+	}
+	return s
 }
 
 type c06Snap struct {
@@ -175,7 +249,10 @@ type c06Obs struct {
 	P    *c06Snap        // PendingBatchSnapshot()
 	Perr string
 	S    []*c06Snap    // GetLocalBatchSnapshots()
+	Serr string        // "noOrder": a snapshot order is missing from the main bucket
 	G    [7]*c06Snap   // GetLocalBatchSnapshot(id), id=1..6
+	Gerr [7]bool       // ErrNoOrder
+	Enorefs [8]bool    // "order event sub bucket not found"
 	E    [8][]string   // GetOrderEvents(n)
 	Eerr [8]bool
 	bad  string // an observer failed unexpectedly
@@ -221,19 +298,27 @@ func (ob *c06Obs) str() string {
 	for i := 1; i <= 6; i++ {
 		if ob.G[i] != nil {
 			G = append(G, ob.G[i].str())
+		} else if ob.Gerr[i] {
+			G = append(G, fmt.Sprintf("%d!noOrder", i))
 		} else {
 			G = append(G, fmt.Sprintf("%d!", i))
 		}
 	}
 	for n := 1; n <= 7; n++ {
-		if ob.Eerr[n] {
+		if ob.Enorefs[n] {
+			E = append(E, fmt.Sprintf("%d!norefs", n))
+		} else if ob.Eerr[n] {
 			E = append(E, fmt.Sprintf("%d!", n))
 		} else {
 			E = append(E, fmt.Sprintf("%d:%s", n, joinOr(ob.E[n], ";")))
 		}
 	}
+	Sstr := joinOr(S, "|")
+	if ob.Serr != "" {
+		Sstr = "!" + ob.Serr
+	}
 	return fmt.Sprintf("A=%s a=%s O=%s o=%s P=%s S=%s G=%s E=%s", joinOr(A, ";"),
-		strings.Join(a, ";"), joinOr(O, ";"), strings.Join(o, ";"), P, joinOr(S, "|"),
+		strings.Join(a, ";"), joinOr(O, ";"), strings.Join(o, ";"), P, Sstr,
 		strings.Join(G, "|"), strings.Join(E, "|"))
 }
 
@@ -272,6 +357,23 @@ func (d *c06DB) reopen() {
 		panic(err)
 	}
 	d.open()
+}
+
+// copyFile copies the database file as it is on disk right now into a fresh
+// directory and returns that directory.
+func (d *c06DB) copyFile() string {
+	dir, err := os.MkdirTemp("", "stage-crash-")
+	if err != nil {
+		panic(err)
+	}
+	b, err := os.ReadFile(filepath.Join(d.dir, clientdb.DBFilename))
+	if err != nil {
+		panic(err)
+	}
+	if err := os.WriteFile(filepath.Join(dir, clientdb.DBFilename), b, 0o600); err != nil {
+		panic(err)
+	}
+	return dir
 }
 
 func (d *c06DB) close() {
@@ -333,10 +435,28 @@ func (d *c06DB) toAcct(k int, r c06Acct) *account.Account {
 
 func (d *c06DB) fromOrder(o order.Order) (int, c06Ord) {
 	k := o.Details()
-	return d.w.nonceIdx[o.Nonce()], c06Ord{
+	r := c06Ord{
 		State: int64(k.State), Unfilled: uint64(k.UnitsUnfulfilled), Units: uint64(k.Units),
-		Min: uint64(k.MinUnitsMatch),
+		Min: uint64(k.MinUnitsMatch), Extras: 99,
 	}
+	if b, ok := o.(*order.Bid); ok {
+		r.Bid, r.Tier = 1, int64(b.MinNodeTier)
+	}
+	// which tag do the optional terms read back as? (99 = none: damaged)
+	sig := c06ExtrasSig(o)
+	for tag := int64(0); tag < 8; tag++ {
+		var ref order.Order
+		if r.Bid == 1 {
+			ref = &order.Bid{}
+		} else {
+			ref = &order.Ask{}
+		}
+		d.w.c06Extras(ref, tag)
+		if c06ExtrasSig(ref) == sig {
+			r.Extras = tag
+		}
+	}
+	return d.w.nonceIdx[o.Nonce()], r
 }
 
 func (d *c06DB) toOrder(n int, r c06Ord) order.Order {
@@ -351,10 +471,14 @@ func (d *c06DB) toOrder(n int, r c06Ord) order.Order {
 	kit.LeaseDuration = 2016
 	kit.MultiSigKeyLocator = keychain.KeyLocator{Family: 1, Index: uint32(n)}
 	copy(kit.AcctKey[:], d.w.acctKey[1].SerializeCompressed())
-	if n%2 == 1 {
-		return &order.Ask{Kit: *kit}
+	var o order.Order
+	if r.Bid == 0 {
+		o = &order.Ask{Kit: *kit}
+	} else {
+		o = &order.Bid{Kit: *kit, MinNodeTier: order.NodeTier(r.Tier)}
 	}
-	return &order.Bid{Kit: *kit, MinNodeTier: order.NodeTier0}
+	d.w.c06Extras(o, r.Extras)
+	return o
 }
 
 func (d *c06DB) fromSnap(s *clientdb.LocalBatchSnapshot) *c06Snap {
@@ -484,6 +608,8 @@ func (d *c06DB) observe() *c06Obs {
 			}
 		case errors.Is(err, clientdb.ErrNoOrder):
 			ob.Eerr[n] = true
+		case err.Error() == "order event sub bucket not found":
+			ob.Enorefs[n] = true
 		default:
 			fail("GetOrderEvents", err)
 		}
@@ -493,12 +619,16 @@ func (d *c06DB) observe() *c06Obs {
 		ob.P = d.fromSnap(p)
 	} else {
 		ob.Perr = c06ErrName(err)
-		if ob.Perr != "noPending" {
+		// noOrder: a staged order was deleted from the main bucket, the
+		// pending snapshot cannot be completed from it
+		if ob.Perr != "noPending" && ob.Perr != "noOrder" {
 			fail("PendingBatchSnapshot", err)
 		}
 	}
 	snaps, err := d.db.GetLocalBatchSnapshots()
-	if err != nil {
+	if errors.Is(err, clientdb.ErrNoOrder) {
+		ob.Serr = "noOrder"
+	} else if err != nil {
 		fail("GetLocalBatchSnapshots", err)
 	}
 	for _, s := range snaps {
@@ -508,6 +638,8 @@ func (d *c06DB) observe() *c06Obs {
 		s, err := d.db.GetLocalBatchSnapshot(d.w.batchID(i))
 		if err == nil {
 			ob.G[i] = d.fromSnap(s)
+		} else if errors.Is(err, clientdb.ErrNoOrder) {
+			ob.Gerr[i] = true
 		} else if !strings.Contains(err.Error(), "not found") {
 			fail("GetLocalBatchSnapshot", err)
 		}
@@ -893,6 +1025,8 @@ func (c *c06Case) step(op string) {
 	prev := c.prev
 	var (
 		res      string
+		crashDir string
+		directDel = -1
 		stageExp *c06Snap // expected staged version (stage ops)
 		directA  map[int]c06Acct
 		directO  map[int]c06Ord
@@ -919,14 +1053,13 @@ func (c *c06Case) step(op string) {
 			directA = map[int]c06Acct{int(v[0]): rec}
 		case "submit":
 			n := atoi(f[1])
-			var v [4]uint64
-			for i := 0; i < 4; i++ {
-				v[i], _ = strconv.ParseUint(f[2+i], 10, 64)
-			}
-			rec := c06Ord{int64(v[0]), v[1], v[2], v[3]}
+			rec := c06ParseOrd(f[2:])
 			res = c06ErrName(d.db.SubmitOrder(d.toOrder(n, rec)))
 			directO = map[int]c06Ord{n: rec}
-		case "stage":
+			if rec.Extras != 0 || rec.Tier != 0 || rec.Min > 1 {
+				r.Count("submit/non-default-terms")
+			}
+		case "stage", "crashstage":
 			id, tx, fee := atoi(f[1]), atoi(f[2]), f[3] == "1"
 			os_, _ := parseKeyList(f[4])
 			oms, _ := parseOModLists(f[5])
@@ -963,6 +1096,24 @@ func (c *c06Case) step(op string) {
 				}
 				amods = append(amods, l)
 			}
+			if f[0] == "crashstage" {
+				// the process dies inside the transaction, after the
+				// elements before `pos` were written: what is on disk at
+				// that moment is copied aside (a crash executes no
+				// rollback code), then the call is aborted by a panic
+				pos := atoi(f[9])
+				die := func() {
+					crashDir = d.copyFile()
+					panic("simulated crash inside StorePendingBatch")
+				}
+				switch {
+				case pos < len(omods):
+					omods[pos] = append(omods[pos], func(*order.Kit) { die() })
+				case pos-len(omods) < len(amods):
+					i := pos - len(omods)
+					amods[i] = append(amods[i], func(*account.Account) { die() })
+				}
+			}
 			err := d.db.StorePendingBatch(d.batch(id, tx, fee, mt), nonces, omods, accts, amods)
 			res = c06ErrName(err)
 			// expected staged version, from the English statement: the
@@ -993,6 +1144,10 @@ func (c *c06Case) step(op string) {
 		case "reopen":
 			d.reopen()
 			res = "ok"
+		case "delorder":
+			n := atoi(f[1])
+			res = c06ErrName(d.db.DeleteOrder(d.w.nonce(n)))
+			directDel = n
 		case "updorder":
 			n := atoi(f[1])
 			ms, _ := parseOMods(f[2])
@@ -1054,6 +1209,28 @@ func (c *c06Case) step(op string) {
 				}
 				directA = map[int]c06Acct{k: a}
 			}
+		case "acctspend":
+			// the REAL account manager on the daemon's accountStore wrapper
+			k, kind, t, h := atoi(f[1]), f[2], atoi(f[3]), atoi(f[4])
+			tx := d.w.txs[t].Copy()
+			switch kind {
+			case "multisig":
+				if (k+t+h)%2 == 0 { // p2wsh shape
+					tx.TxIn[0].Witness = wire.TxWitness{bytes.Repeat([]byte{0x30}, 71),
+						bytes.Repeat([]byte{0x30}, 71), {0x52, 0x21}}
+				} else { // taproot key spend
+					tx.TxIn[0].Witness = wire.TxWitness{bytes.Repeat([]byte{0x01}, 64)}
+				}
+			case "expiry":
+				tx.TxIn[0].Witness = wire.TxWitness{{}, bytes.Repeat([]byte{0x30}, 71), {0x52, 0x21}}
+			default:
+				tx.TxIn[0].Witness = wire.TxWitness{{0x01}, {0x02}}
+			}
+			mgr := account.NewManager(&account.ManagerConfig{Store: pool.VerifC06AccountStore(d.db)})
+			err := mgr.HandleAccountSpend(d.w.acctKey[k], &chainntnfs.SpendDetail{
+				SpendingTx: tx, SpenderInputIndex: 0, SpendingHeight: int32(h),
+			})
+			res = c06ErrName(err)
 		case "reconnect":
 			var fk *c06Rpc
 			res, fk = d.reconnect(f[1], f[2] == "1")
@@ -1064,7 +1241,33 @@ func (c *c06Case) step(op string) {
 			res = "bad-op"
 		}
 	}()
-	r.Emit("C06 "+op, res)
+	if f[0] == "crashstage" && crashDir == "" {
+		// the call ended (error / earlier panic) before the crash point
+		// was reached: it was an ordinary staging call
+		f = f[:9]
+		f[0] = "stage"
+		op = strings.Join(f, " ")
+	}
+	if f[0] == "crashstage" {
+		// model: a crash inside a transaction leaves the pre-transaction
+		// state (bbolt, trusted - and exercised here)
+		res = "crash"
+		r.Emit("C06 crash", res)
+		{
+			cd := &c06DB{w: d.w, dir: crashDir}
+			cd.open()
+			cob := cd.observe()
+			cd.close()
+			r.Emit("C06 obs", cob.str())
+			r.Count("crash/at-element")
+			if prev != nil && cob.str() != prev.str() {
+				c.violate("database file as left by a crash inside StorePendingBatch differs from the "+
+					"pre-call state:\n before %s\n crash  %s", prev.str(), cob.str())
+			}
+		}
+	} else {
+		r.Emit("C06 "+op, res)
+	}
 	ob := d.observe()
 	r.Emit("C06 obs", ob.str())
 	c.prev = ob
@@ -1086,6 +1289,9 @@ func (c *c06Case) step(op string) {
 		c.violate("failed call (%s) changed observable state:\n before %s\n after  %s", res, prev.str(), ob.str())
 	}
 	for n := 1; n <= 7; n++ { // events are append-only
+		if n == directDel || ob.Enorefs[n] || prev.Enorefs[n] {
+			continue
+		}
 		if len(ob.E[n]) < len(prev.E[n]) || strings.Join(ob.E[n][:len(prev.E[n])], ";") != strings.Join(prev.E[n], ";") {
 			c.violate("event log of order %d rewritten", n)
 		}
@@ -1096,7 +1302,16 @@ func (c *c06Case) step(op string) {
 		}
 		return got == want
 	}
+	if prev.Perr == "noOrder" || ob.Perr == "noOrder" {
+		// the staged batch exists but cannot be read (one of its orders
+		// was deleted): the per-op oracle below needs its content; these
+		// steps are covered by the correspondence with the model only
+		r.Count("oracle/pending-unreadable")
+		return
+	}
 	switch f[0] {
+	case "crashstage":
+		r.Count("crashstage/" + res)
 	case "stage":
 		kind := "ok"
 		if !ok {
@@ -1176,10 +1391,26 @@ func (c *c06Case) step(op string) {
 				c.violate("order %d after complete: got %v want %v", n, ob.O[n], want)
 			}
 		}
-		if len(ob.A) != len(prev.A) || len(ob.O) != len(prev.O) {
-			c.violate("complete created or removed accounts/orders")
+		wantOrders := len(prev.O)
+		for n, so := range p.O {
+			if _, had := prev.O[n]; had {
+				continue
+			}
+			// a staged order that was deleted from the main bucket
+			// after staging: completion applies the staged version
+			wantOrders++
+			r.Count("complete/resurrects-deleted-order")
+			got, found := ob.O[n]
+			if !found || got.State != so.State || got.Unfilled != so.Unfilled || got.Units != so.Units {
+				c.violate("staged order %d (deleted meanwhile) after complete: got %v want staged %v", n, got, so)
+			}
 		}
-		if len(ob.S) != len(prev.S)+1 || !c06SnapEq(ob.S[len(ob.S)-1], p) {
+		if len(ob.A) != len(prev.A) || len(ob.O) != wantOrders {
+			c.violate("complete created or removed accounts/orders beyond the staged ones")
+		}
+		if ob.Serr != "" || prev.Serr != "" {
+			r.Count("complete/snapshots-unreadable")
+		} else if len(ob.S) != len(prev.S)+1 || !c06SnapEq(ob.S[len(ob.S)-1], p) {
 			c.violate("snapshot history after complete is not old history + staged snapshot")
 		} else {
 			for i := range prev.S {
@@ -1193,8 +1424,69 @@ func (c *c06Case) step(op string) {
 				if !c06SnapEq(ob.G[i], p) {
 					c.violate("snapshot not filed under its batch id %d", i)
 				}
-			} else if !c06SnapEq(ob.G[i], prev.G[i]) {
+			} else if !c06SnapEq(ob.G[i], prev.G[i]) && !prev.Gerr[i] {
 				c.violate("snapshot of batch %d changed by completing batch %d", i, p.ID)
+			}
+		}
+	case "acctspend":
+		k, kind, t, h := atoi(f[1]), f[2], int64(atoi(f[3])), int64(atoi(f[4]))
+		_, known := prev.A[k]
+		r.Count("acctspend/" + kind + "/" + res)
+		if !known || kind == "unknown" {
+			if ok || ob.str() != prev.str() {
+				c.violate("spend of unknown account / with unknown witness: result %s or state changed", res)
+			}
+			break
+		}
+		// expected: (multi-sig spend and a staged batch) the staged batch is
+		// completed first; then the account is closed with the spend tx
+		wantA, wantO := map[int]c06Acct{}, map[int]c06Ord{}
+		for kk, a := range prev.A {
+			wantA[kk] = a
+		}
+		for n, o := range prev.O {
+			wantO[n] = o
+		}
+		wantP, wantS := prev.P, len(prev.S)
+		if kind == "multisig" && prev.P != nil {
+			r.Count("acctspend/completes-pending")
+			c.sawCompleteOk = true
+			for kk, a := range prev.P.A {
+				wantA[kk] = a
+			}
+			for n, so := range prev.P.O {
+				o, had := wantO[n]
+				if !had {
+					continue // deleted meanwhile: checked by the complete oracle
+				}
+				o.State, o.Unfilled = so.State, so.Unfilled
+				wantO[n] = o
+			}
+			wantP, wantS = nil, wantS+1
+			if ob.Serr == "" && prev.Serr == "" &&
+				(len(ob.S) != wantS || !c06SnapEq(ob.S[len(ob.S)-1], prev.P) || !c06SnapEq(ob.G[prev.P.ID], prev.P)) {
+				c.violate("spend with a staged batch did not file the staged snapshot")
+			}
+		} else if kind == "expiry" && prev.P != nil {
+			r.Count("acctspend/expiry-keeps-pending")
+		}
+		a := wantA[k]
+		a.State, a.Hint, a.Tx = 6, h, t
+		wantA[k] = a
+		if !ok {
+			c.violate("account spend failed: %s", res)
+		}
+		if !c06SnapEq(ob.P, wantP) || (ob.Serr == "" && prev.Serr == "" && len(ob.S) != wantS) {
+			c.violate("account spend: staged batch / snapshot history not as expected")
+		}
+		for kk, w := range wantA {
+			if got, found := ob.A[kk]; !found || !acctEq(got, w) {
+				c.violate("account %d after spend: got %v want %v", kk, ob.A[kk], w)
+			}
+		}
+		for n, w := range wantO {
+			if got, found := ob.O[n]; !found || got != w {
+				c.violate("order %d after spend: got %v want %v", n, ob.O[n], w)
 			}
 		}
 	case "discard":
@@ -1260,6 +1552,12 @@ func (c *c06Case) step(op string) {
 			}
 		}
 		for n, o := range prev.O {
+			if n == directDel {
+				if _, found := ob.O[n]; found {
+					c.violate("order %d still visible after DeleteOrder", n)
+				}
+				continue
+			}
 			if w, in := directO[n]; in {
 				o = w
 			}
@@ -1267,7 +1565,7 @@ func (c *c06Case) step(op string) {
 				c.violate("order %d after %s: got %v want %v", n, f[0], ob.O[n], o)
 			}
 		}
-		if fmt.Sprint(ob.S) != fmt.Sprint(prev.S) && len(ob.S) != len(prev.S) {
+		if ob.Serr == "" && prev.Serr == "" && len(ob.S) != len(prev.S) {
 			c.violate("direct update changed the snapshot history")
 		}
 	}
@@ -1372,10 +1670,25 @@ func (g *c06Gen) addacct(k int) string {
 		rng.Intn(500), tx, rng.Intn(2))
 }
 
+// terms draws `isBid tier extras`: 2/3 of the orders carry non-default
+// optional terms (node tier, TLV extras incl. a sidecar ticket).
+func (g *c06Gen) terms() string {
+	rng := g.r.Rng
+	bid, tier, extras := rng.Intn(2), 0, 0
+	if bid == 1 {
+		tier = rng.Intn(3)
+	}
+	if rng.Intn(3) > 0 {
+		extras = 1 + rng.Intn(7)
+	}
+	return fmt.Sprintf("%d %d %d", bid, tier, extras)
+}
+
 func (g *c06Gen) submit(n int) string {
 	rng := g.r.Rng
 	units := 1 + rng.Intn(50)
-	return fmt.Sprintf("submit %d %d %d %d %d", n, rng.Intn(3), rng.Intn(units+1), units, 1+rng.Intn(5))
+	return fmt.Sprintf("submit %d %d %d %d %d %s", n, rng.Intn(3), rng.Intn(units+1), units, 1+rng.Intn(5),
+		g.terms())
 }
 
 // stage builds a staging call; failAt >= 0 puts a failing element there.
@@ -1470,8 +1783,23 @@ func (g *c06Gen) history() []string {
 		switch x := rng.Intn(100); {
 		case x < 28:
 			ops = append(ops, g.stage(false))
-		case x < 40:
+		case x < 38:
 			ops = append(ops, g.stage(true))
+		case x < 40:
+			st := g.stage(false)
+			ff := strings.Fields(st)
+			no, na := 0, 0
+			if ff[4] != "_" {
+				no = len(strings.Split(ff[4], ","))
+			}
+			if ff[6] != "_" {
+				na = len(strings.Split(ff[6], ","))
+			}
+			if no+na == 0 {
+				ops = append(ops, st)
+			} else {
+				ops = append(ops, fmt.Sprintf("crash%s %d", st, rng.Intn(no+na)))
+			}
 		case x < 52:
 			ops = append(ops, "complete")
 		case x < 59:
@@ -1498,6 +1826,13 @@ func (g *c06Gen) history() []string {
 				ms = append(ms, g.omods(1))
 			}
 			ops = append(ops, fmt.Sprintf("updorders %s %s", joinOr2(ns, ","), joinOr2(ms, "/")))
+		case x < 83:
+			k := 1 + rng.Intn(g.nA)
+			if rng.Intn(10) == 0 {
+				k = 5
+			}
+			kind := []string{"multisig", "multisig", "multisig", "expiry", "unknown"}[rng.Intn(5)]
+			ops = append(ops, fmt.Sprintf("acctspend %d %s %d %d", k, kind, 1+rng.Intn(7), 100+rng.Intn(900)))
 		case x < 87:
 			k := 1 + rng.Intn(g.nA)
 			if rng.Intn(8) == 0 {
@@ -1511,6 +1846,12 @@ func (g *c06Gen) history() []string {
 			} else {
 				ops = append(ops, g.addacct(1+rng.Intn(g.nA))) // overwrite
 			}
+		case x < 90:
+			n := 1 + rng.Intn(g.nO)
+			if rng.Intn(8) == 0 {
+				n = 7
+			}
+			ops = append(ops, fmt.Sprintf("delorder %d", n))
 		case x < 91:
 			if g.nO < 6 && rng.Intn(2) == 0 {
 				g.nO++
